@@ -73,6 +73,7 @@ func runC06(c *Ctx) {
 	c.c06ClimbingLoopsStopAtTheFixedPoint()
 	c.c06MoveOntoItselfWhateverTheKind()
 	c.c06RelativePathsAreThoseOfTheReference()
+	c.filterLeavesOutOnlyWhatMatches("Z31") // the obligation C08/E15: what a listing holds is decided by the patterns alone
 	c.c06CancellationIsReported()
 	if os.Getenv("GUCHECK_EXPLORE") == "forwarders" {
 		c.exploreForwarders()
